@@ -264,7 +264,7 @@ PROPS = {
         modules=["SpatialId.Props.C16"],
         families=[("det_chgExt", 1500, 8000), ("det_chgSp", 800, 5000), ("det_mrgExt", 800, 5000), ("det_mrgSp", 500, 3000),
                   ("det_nN", 600, 4000), ("det_ovEA", 1500, 8000), ("det_ovSA", 1500, 8000), ("det_tiles", 500, 3000),
-                  ("det_qv", 800, 4000), ("det_sets", 3000, 20000), ("corridordet", 60, 400)],
+                  ("det_qv", 800, 4000), ("points", 3000, 30000), ("det_sets", 3000, 20000), ("corridordet", 60, 400)],
         trusted_base=COMMON_TB + ["Go map iteration order only permutes de-duplicated results (the models fix one order; "
                                   "comparison is on sorted results)"],
         assumptions=["valid argument lists"],
